@@ -73,7 +73,12 @@ pub fn gen_v(c: &Case, f: &F, rng: &mut Rng) -> V {
         F::BoxOpaque => V::Ptr(0x3000 + 8 * rng.below(100) as u32),
         F::Slice => V::Slice(rng.below(4)),
         F::Struct(k) => V::Struct(*k, c.structs[*k].iter().map(|x| gen_v(c, x, rng)).collect()),
-        F::Opt(t) => if rng.chance(1, 3) { V::None } else { V::Some(Box::new(gen_v(c, t, rng))) },
+        F::Opt(t) => if rng.chance(1, 3) { V::None } else {
+            // a present payload may well be zero / false: `is_ok` decides, not the payload
+            let v = gen_v(c, t, rng);
+            let v = if rng.chance(1, 3) { match v { V::Int(_, p) => V::Int(0, p), V::Flt(_, f) => V::Flt(0.0, f), V::Bool(_) => V::Bool(false), o => o } } else { v };
+            V::Some(Box::new(v))
+        },
     }
 }
 
